@@ -212,6 +212,11 @@ func runVec(rep *Report, v *Vec, rng *rand.Rand) {
 	if rng.Intn(2) == 0 {
 		e.FormattedAs("other", []byte("untouched"))
 	}
+	stale := v.X.Node != "filter" && rng.Intn(2) == 0
+	if stale {
+		// an earlier node already stored something under "json": the formatter is the last writer and must win
+		e.FormattedAs(eventlogger.JSONFormat, []byte("stale, not the image of this event"))
+	}
 	pred := func() (bool, error) {
 		switch v.X.Pred {
 		case "true":
@@ -269,6 +274,12 @@ func runVec(rep *Report, v *Vec, rng *rand.Rand) {
 		bad("event type / creation time altered", typ, e.Type)
 	}
 	line, ok := e.Format(eventlogger.JSONFormat)
+	if stale && !v.Exp.Stored {
+		if !ok || string(line) != "stale, not the image of this event" {
+			bad("a failing formatter must leave the format table unchanged", "stale entry kept", string(line))
+		}
+		return
+	}
 	if ok != v.Exp.Stored {
 		bad("json format stored", v.Exp.Stored, ok)
 		return
